@@ -37,6 +37,7 @@ package profile
 //@       && forall j int :: 0 <= j && j < len(data)-len(result1)-1 ==> data[j] & 0x80 != 0
 //@   ensures err: result2 != nil ==> result0 == 0 && len(result1) == 0
 //@       && (forall j int :: 0 <= j && j < 10 && j < len(data) ==> data[j] & 0x80 != 0)
+//@   ensures complete: vok(data) ==> result2 == nil
 //@   loop 1 unroll 11
 
 // Facts about the encoding, proved once and used by the round-trip lemma.
@@ -77,6 +78,8 @@ package profile
 // vcount(data): position after the first byte without continuation bit (within the first 10 bytes).
 //@ spec func vcount(data []byte) int = ite(data[0] & 0x80 == 0, 1, ite(data[1] & 0x80 == 0, 2, ite(data[2] & 0x80 == 0, 3, ite(data[3] & 0x80 == 0, 4,
 //@     ite(data[4] & 0x80 == 0, 5, ite(data[5] & 0x80 == 0, 6, ite(data[6] & 0x80 == 0, 7, ite(data[7] & 0x80 == 0, 8, ite(data[8] & 0x80 == 0, 9, 10)))))))))
+// vok(data): data starts with a complete varint (a terminator within the first 10 bytes and within data).
+//@ spec func vok(data []byte) bool = len(data) >= 1 && vcount(data) <= len(data) && data[vcount(data) - 1] & 0x80 == 0
 // suffix(r, d): r is the tail of d that starts len(d)-len(r) bytes in.
 //@ spec func suffix(r []byte, d []byte) bool = len(r) <= len(d) && same_elems(r, d[len(d)-len(r):])
 
@@ -94,6 +97,9 @@ package profile
 //@   ensures fixed64: result1 == nil && b.typ == 1 ==> len(data) - len(result0) == vcount(data) + 8
 //@   ensures fixed32: result1 == nil && b.typ == 5 ==> len(data) - len(result0) == vcount(data) + 4
 //@   ensures failed: result1 != nil ==> len(result0) == 0
+//@   ensures complete0: vok(data) && vval(data, vcount(data)) & 7 == 0 && vok(data[vcount(data):]) ==> result1 == nil
+//@   ensures varint: result1 == nil && b.typ == 0 ==> b.u64 == vval(data[vcount(data):], vcount(data[vcount(data):]))
+//@       && len(data) - len(result0) == vcount(data) + vcount(data[vcount(data):])
 
 //@ func decodeInt64 arith bv
 //@   requires b != nil && x != nil
@@ -134,3 +140,67 @@ package profile
 //@   loop 1
 //@     invariant len(data) >= 0
 //@     decreases len(data)
+
+// encodeUint64/Int64/Length: a key varint followed by a value varint, appended to b.data.
+//@ spec func keyof(tag int, wt uint64) uint64 = uint64(tag) << 3 | wt
+//@ func encodeUint64 arith bv
+//@   requires b != nil
+//@   ensures length: len(b.data) == old(len(b.data)) + vlen(keyof(tag, 0)) + vlen(x)
+//@   ensures prefix: forall j int :: 0 <= j && j < old(len(b.data)) ==> b.data[j] == old(b.data[j])
+//@   ensures key: forall j int :: old(len(b.data)) <= j && j < old(len(b.data)) + vlen(keyof(tag, 0)) ==> b.data[j] == vbyte(keyof(tag, 0), j - old(len(b.data)))
+//@   ensures value: forall j int :: old(len(b.data)) + vlen(keyof(tag, 0)) <= j && j < len(b.data) ==> b.data[j] == vbyte(x, j - old(len(b.data)) - vlen(keyof(tag, 0)))
+//@ func encodeInt64 arith bv
+//@   requires b != nil
+//@   ensures length: len(b.data) == old(len(b.data)) + vlen(keyof(tag, 0)) + vlen(uint64(x))
+//@   ensures prefix: forall j int :: 0 <= j && j < old(len(b.data)) ==> b.data[j] == old(b.data[j])
+//@   ensures key: forall j int :: old(len(b.data)) <= j && j < old(len(b.data)) + vlen(keyof(tag, 0)) ==> b.data[j] == vbyte(keyof(tag, 0), j - old(len(b.data)))
+//@   ensures value: forall j int :: old(len(b.data)) + vlen(keyof(tag, 0)) <= j && j < len(b.data) ==> b.data[j] == vbyte(uint64(x), j - old(len(b.data)) - vlen(keyof(tag, 0)))
+//@ func encodeLength arith bv
+//@   requires b != nil
+//@   ensures length: len(b.data) == old(len(b.data)) + vlen(keyof(tag, 2)) + vlen(uint64(len))
+//@   ensures prefix: forall j int :: 0 <= j && j < old(len(b.data)) ==> b.data[j] == old(b.data[j])
+//@   ensures key: forall j int :: old(len(b.data)) <= j && j < old(len(b.data)) + vlen(keyof(tag, 2)) ==> b.data[j] == vbyte(keyof(tag, 2), j - old(len(b.data)))
+//@ func encodeUint64Opt arith bv
+//@   requires b != nil
+//@   ensures zero: x == 0 ==> len(b.data) == old(len(b.data))
+//@   ensures nonzero: x != 0 ==> len(b.data) == old(len(b.data)) + vlen(keyof(tag, 0)) + vlen(x)
+//@ func encodeInt64Opt arith bv
+//@   requires b != nil
+//@   ensures zero: x == 0 ==> len(b.data) == old(len(b.data))
+//@   ensures nonzero: x != 0 ==> len(b.data) == old(len(b.data)) + vlen(keyof(tag, 0)) + vlen(uint64(x))
+//@ func encodeBoolOpt arith bv
+//@   requires b != nil
+//@   ensures zero: !x ==> len(b.data) == old(len(b.data))
+//@   ensures nonzero: x ==> len(b.data) == old(len(b.data)) + vlen(keyof(tag, 0)) + 1
+//@ func encodeBool arith bv
+//@   requires b != nil
+//@   ensures length: len(b.data) == old(len(b.data)) + vlen(keyof(tag, 0)) + 1
+//@   ensures prefix: forall j int :: 0 <= j && j < old(len(b.data)) ==> b.data[j] == old(b.data[j])
+//@   ensures value: b.data[len(b.data) - 1] == ite(x, uint8(1), uint8(0))
+
+// decodeField(encodeUint64(tag, x) ++ tail) yields (tag, varint, x) and leaves the tail.
+//@ lemma field_roundtrip_uint64 arith bv
+//@   vars b *buffer, d *buffer, tag int, x uint64, n0 int
+//@   assume b != nil && d != nil && n0 == len(b.data) && 0 < tag && tag < 536870912
+//@   call encodeUint64(b, tag, x)
+//@   use vbyte_cont
+//@   use vbyte_last
+//@   use vlen_range
+//@   use vval_enc
+//@   let data := b.data[n0:]
+//@   let kl := vlen(keyof(tag, 0))
+//@   conclude k_bytes: forall k int :: 0 <= k && k < kl ==> b.data[n0+k] == vbyte(keyof(tag, 0), k) && data[k] == b.data[n0+k]
+//@   conclude k_last: data[kl - 1] & 0x80 == 0
+//@   conclude k_count: vcount(data) == kl
+//@   conclude k_val: vval(data, kl) == keyof(tag, 0)
+//@   let vdata := data[kl:]
+//@   conclude v_bytes: forall k int :: 0 <= k && k < vlen(x) ==> b.data[n0+kl+k] == vbyte(x, k) && vdata[k] == b.data[n0+kl+k]
+//@   conclude v_last: vdata[vlen(x) - 1] & 0x80 == 0
+//@   conclude v_count: vcount(vdata) == vlen(x)
+//@   conclude v_val: vval(vdata, vlen(x)) == x
+//@   call rest, err := decodeField(d, data)
+//@   conclude noerr: err == nil
+//@   conclude wt: keyof(tag, 0) & 7 == 0
+//@   conclude typ: d.typ == 0
+//@   conclude value: d.u64 == x
+//@   conclude consumed: len(rest) == 0
